@@ -344,6 +344,18 @@ def gen_multi(rng, n=None):
         # the first point at its limits, the others free in their ranges
         for v in (ess[0][-1], -ess[0][-1], up(ess[0][-1])):
             add(fn, [v] + [rng.uniform(-1, 1) * scale * M for M in maxLs[1:]], "first_limit")
+        # a point WITHOUT a load (NaN) at the first / a middle / the last position, the others free in their own ranges
+        # (/repo commit 4c5d9b2: NaN for that point, values for the others, no exception); oracle only
+        for j in sorted({0, p // 2, p - 1}):
+            xs = [rng.uniform(-1, 1) * scale * M for M in maxLs]
+            xs[j] = "nan"
+            add(fn, xs, "nan_point")
+        if p >= 2:      # ... and with one of the OTHER points above its own range: the range rule still holds (ValueError)
+            xs = [rng.uniform(-1, 1) * scale * M for M in maxLs]
+            j, jo = rng.sample(range(p), 2)
+            xs[j] = "nan"
+            xs[jo] = ess[jo][-1] * rng.choice([1 + 1e-9, rng.uniform(1.0001, 5)]) * rng.choice([1, -1])
+            add(fn, xs, "nan_point")
     # a Series that does not hold one load per point (p >= 2: with one point the code before the repair broadcast a longer
     # Series against the one-row class instead of rejecting it)
     if p >= 2:
@@ -382,13 +394,14 @@ class C07(Prop):
             "permuted positions, duplicate labels (one load_step), strings, floats, a (load_step, node_id) MultiIndex; "
             "per-point Series with the node ids in table order, in another order, unrelated labels ..., loads proportional "
             "to the maxima, free in every point's own range, on every point's own edges, exactly one point above its own "
-            "range, wrong length.  Correspondence: class edges of the real table vs the model's `(i/n)*max` within 2 ulp; every "
+            "range, one point without a load (NaN) at the first / a middle / the last position (oracle only), wrong length.  Correspondence: class edges of the real table vs the model's `(i/n)*max` within 2 ulp; every "
             "look-up of the real object vs the model's look-up on the real table's numbers, bit for bit (sign of zero "
             "dropped), `ValueError` vs `none`.  Oracle (no Lean): edges strictly increasing, within 2 ulp of the exact "
             "i*max/n, last edge = max resp. 2 max; table = wrapped law called on the edges (bit-exact); look-up = sign x value "
             "of the first class whose edge is >= |x| by a linear scan over the table's edges, per point in the point's own "
             "column; ValueError iff some load is above its own range; for all four functions never below the law, monotone, "
-            "less than one class off; per-point table = single tables, per-point look-up = single look-ups.  Non-trivial = "
+            "less than one class off; per-point table = single tables, per-point look-up = single look-ups; a point without a load "
+            "(NaN) gets NaN, the other points get the values they get with a load at that point, no exception (4c5d9b2).  Non-trivial = "
             "every case with at least one successful and one rejected look-up")
     ASSUMPTIONS = [
         "C07: theorems are over an arbitrary linearly ordered field (exact arithmetic); the IEEE evaluation of the class edges "
@@ -403,9 +416,16 @@ class C07(Prop):
         "oracle against a direct call of the law on the Series of edges",
         "C07: admissible configuration: number_of_bins >= 1, maximum load > 0 (all points).  Outside the property and not "
         "judged: NaN inside a Series on a single table (the code replaces it by 0; modelled by `fillna0` and compared in the "
-        "correspondence), NaN in a per-point Series (not generated), a scalar look-up on a per-point table (returns a "
+        "correspondence), a scalar look-up on a per-point table (returns a "
         "meaningless number; not generated), a per-point Series whose length is not the number of points (code and model "
         "reject it; correspondence only)",
+        "C07: a per-point Series in which a point has NO load (NaN; first / a middle / the last point, all four functions) is "
+        "generated and judged by the ORACLE ONLY, as the behaviour /repo commit 4c5d9b2 defines (it restores, for every position, "
+        "what the tree before 3047e0d did for a NaN behind the first point): NaN for exactly those points, for every other point "
+        "the value of its own class - bit for bit what the same look-up gives with a load (zero, the point's maximum) in place of "
+        "the NaN -, no exception unless another point is above its own range (ValueError).  Not in the Lean model (`lookupMulti` "
+        "has no notion of a missing load) and left out of the correspondence on both sides; the property text does not mention NaN, "
+        "so this is a reading recorded here (failure class binned-per-point-nan-load)",
         "C07: loads of a Series are paired with table rows / points BY POSITION, index labels are ignored: the anchored caller "
         "(FKMNonlinearDetector._proceed_on_secondary_branch) passes load ranges whose index has no node_id level at all, the "
         "doc string asks for a RangeIndex.  A per-point Series whose node_id labels are in another order than the table's is "
@@ -484,6 +504,8 @@ class C07(Prop):
                 lines.append(f"c07.edges {n} {f2h(M)} {n}")
                 lines.append(f"c07.edges {n} {f2h(M)} {2 * n}")
             for q in case["queries"]:
+                if has_nan(q):
+                    continue            # a point without a load: not in the Lean model, judged by the oracle only
                 loads, vals = lut_of(b, q["fn"])
                 m = len(loads) // p
                 xs = " ".join(f2h(x) for x in self._xs(q))
@@ -527,6 +549,8 @@ class C07(Prop):
                 ids2 = b._lut_secondary_branch.index.get_level_values("node_id")
                 out.append(" ".join(f2h(v) for v in b._lut_secondary_branch.delta_load[ids2 == nid].to_numpy()))
             for q in case["queries"]:
+                if has_nan(q):
+                    continue            # see model_lines
                 r = call(b, q["fn"], self._series(case, q))
                 self._count("multi_" + ("value" if isinstance(r, list) else r))
                 self._count("multi_index_" + ((q.get("index") or {}).get("kind", "range" if "index" in q else "ids")))
@@ -680,11 +704,11 @@ class C07(Prop):
                 exp.append(None if k is None else (k, sign(x) * vs[k]))
             return self._judge(case, q, fn, xs, exp, r, es, vs, law, exact_law)
         # ---- per-point Series on a per-point table
-        if any(x != x for x in xs):
-            return None
         npts = len(case["maxLs"])
         if len(xs) != npts:
             return None             # not one load per point: outside the property (correspondence: both reject)
+        if any(x != x for x in xs):
+            return self._nan_point_query(case, q, b, ref)
         r = call(b, fn, self._series(case, q))
         ks = [klass(ref[(fn, j)][0], x) for j, x in enumerate(xs)]
         repro = first_point_repro(ref, fn, xs)
@@ -717,6 +741,43 @@ class C07(Prop):
             if isinstance(rs, str) or not close_tab(rs[0], r[j], exact_law, fn, same_edges):
                 return (f"{what} gives {r[j]!r} for point {j} (load {x!r}), the point's own table gives {rs!r}",
                         "binned-multi-lookup")
+        return None
+
+    def _nan_point_query(self, case, q, b, ref):
+        """A per-point Series in which some points have NO load (NaN), /repo commit 4c5d9b2: those points get NaN, every other
+        point gets the value of its own class as if the NaN points were not there, nothing is raised - unless one of the
+        other points is above its own range (ValueError as for every look-up).  Oracle only (not in the Lean model)."""
+        fn, xs = q["fn"], self._xs(q)
+        nanpos = [j for j, x in enumerate(xs) if x != x]
+        self._count("oracle_nan_point_lookups")
+        r = call(b, fn, self._series(case, q))
+        ks = [None if x != x else klass(ref[(fn, j)][0], x) for j, x in enumerate(xs)]
+        idx = (q.get("index") or {}).get("kind", "ids")
+        what = (f"{fn}: per-point look-up {xs!r} with no load (NaN) at point(s) {nanpos} (maxima {case['maxLs']!r}, n={case['n']}, "
+                f"index {idx})")
+        out = [j for j, x in enumerate(xs) if x == x and ks[j] is None]
+        if out:
+            if r == "ValueError":
+                return None
+            return (f"{what}: point {out[0]} has load {xs[out[0]]!r} above its own range {ref[(fn, out[0])][0][-1]!r}, the look-up "
+                    f"{'raised ' + r if isinstance(r, str) else 'returned ' + repr(r)} instead of ValueError", "binned-out-of-range")
+        if isinstance(r, str):
+            return (f"{what}: every point that has a load is inside its own range, the look-up raised {r} instead of giving NaN "
+                    f"for the point(s) without a load and values for the others", "binned-per-point-nan-load")
+        want = [math.nan if x != x else sign(x) * ref[(fn, j)][1][ks[j]] for j, x in enumerate(xs)]
+        if len(r) != len(want) or any(not same(a, c) for a, c in zip(r, want)):
+            return (f"{what} returned {r!r}; NaN at exactly the point(s) without a load and the upper edge of every other point's "
+                    f"own class gives {want!r}", "binned-per-point-nan-load")
+        # the other points do not feel the point without a load: the same look-up with a load at that point (zero / its maximum)
+        for fill in (0.0, None):
+            xs2 = [(ref[(fn, j)][0][-1] if fill is None else fill) if x != x else x for j, x in enumerate(xs)]
+            r2 = call(b, fn, make_series(xs2, q.get("index")) if "index" in q
+                      else pd.Series(xs2, index=pd.Index(case["node_ids"], name="node_id")))
+            if isinstance(r2, str) or len(r2) != len(r) or any(not same(r2[j], r[j]) for j in range(len(xs)) if j not in nanpos):
+                return (f"{what} returned {r!r}, with the load {xs2[nanpos[0]]!r} at point {nanpos[0]} instead "
+                        f"{'it raised ' + r2 if isinstance(r2, str) else 'it returned ' + repr(r2)}: the other points' values changed",
+                        "binned-per-point-nan-load")
+        self._count("oracle_nan_point_values", len(xs) - len(nanpos))
         return None
 
     def _judge(self, case, q, fn, xs, exp, r, es, vs, law, exact_law):
@@ -814,11 +875,16 @@ def same(a, b):
     return a == b or (a != a and b != b)
 
 
+def has_nan(q):
+    """a query holding a NaN load (`"nan"` in the recorded case)"""
+    return any(float(x) != float(x) for x in q["xs"])
+
+
 def solver_tol(law_type, fn):
     """(relative, absolute) tolerance of a wrapped law's value against another call of the same law.  stub: exact.
     ExtendedNeuber: the array Newton iteration stops when ALL elements have converged, so a value depends on its
     companions within the solver tolerance rtol = tol = 1e-4; a strain amplifies a stress error by at most 1/n' <= 10.
-    SeegerBeste (per-element bisection, pylife b50f603 + tools/fixes/C06-seegerbeste-bisection-accuracy.diff): a value does
+    SeegerBeste (per-element bisection, /repo commits b50f603 + 8e3c607): a value does
     not depend on its companions - two calls at the same load agree bit for bit (close_tab) - and is within 5 % of
     tol + rtol |x| of the root: values at DIFFERENT loads (consequence clauses) carry twice that, 1e-5 (1 + |stress|), a strain
     ten times the relative part.  Measured over the quick tier, seeds 1-3: deviation between two calls 0.0, largest
